@@ -147,6 +147,9 @@ def run_tlc(
                     continue
                 if in_trace:
                     res.counterexample.append(line)
+        except BaseException:
+            p.kill()   # the reader stopped: TLC would block on its full output pipe and wait() would never return
+            raise
         finally:
             p.wait()
         res.exit = p.returncode
